@@ -1,6 +1,7 @@
 package hand
 
 import (
+	"fmt"
 	"os"
 	"runtime"
 	"sort"
@@ -59,31 +60,53 @@ func RunGrid(rep *explore.Report, cfgs []*Config, mk func() Visitor, o GridOpts)
 	if v, err := strconv.Atoi(os.Getenv("VERIF_PAR")); err == nil && v > 0 {
 		par = v
 	}
+	var afterMu sync.Mutex
+	runOne := func(c *Config, workers int) {
+		if !deadline.IsZero() && time.Now().After(deadline) {
+			rep.Cap("time budget reached before configuration " + c.Short())
+			rep.Add("configurations_skipped", 1)
+			return
+		}
+		r := &Run{Cfg: c, Rep: rep, Vis: mk(), Property: o.Property, Mode: mode, Workers: workers,
+			MaxState: o.MaxState, Deadline: deadline, CrossN: o.CrossN, Edges: o.Edges}
+		t0 := time.Now()
+		r.Explore()
+		if os.Getenv("VERIF_VERBOSE") != "" {
+			fmt.Fprintf(os.Stderr, "%8.2fs states=%d w=%d %s\n", time.Since(t0).Seconds(), r.States(), workers, c.Short())
+		}
+		if o.After != nil {
+			afterMu.Lock()
+			o.After(r)
+			afterMu.Unlock()
+		}
+	}
+	// phase 1: the few largest configurations one after the other, all cores inside each
+	big := 0
+	if len(cfgs) > 0 {
+		top := estimate(cfgs[0])
+		for big < len(cfgs) && big < 8 && estimate(cfgs[big])*3 >= top {
+			big++
+		}
+		if len(cfgs) <= par {
+			big = len(cfgs)
+		}
+	}
+	for _, c := range cfgs[:big] {
+		runOne(c, par)
+	}
+	// phase 2: the rest in parallel, one core each
 	ch := make(chan *Config)
 	var wg sync.WaitGroup
-	var afterMu sync.Mutex
 	for w := 0; w < par; w++ {
 		wg.Add(1)
 		go func() {
 			defer wg.Done()
 			for c := range ch {
-				if !deadline.IsZero() && time.Now().After(deadline) {
-					rep.Cap("time budget reached before configuration " + c.Short())
-					rep.Add("configurations_skipped", 1)
-					continue
-				}
-				r := &Run{Cfg: c, Rep: rep, Vis: mk(), Property: o.Property, Mode: mode, Workers: 1,
-					MaxState: o.MaxState, Deadline: deadline, CrossN: o.CrossN, Edges: o.Edges}
-				r.Explore()
-				if o.After != nil {
-					afterMu.Lock()
-					o.After(r)
-					afterMu.Unlock()
-				}
+				runOne(c, 1)
 			}
 		}()
 	}
-	for _, c := range cfgs {
+	for _, c := range cfgs[big:] {
 		ch <- c
 	}
 	close(ch)
